@@ -146,6 +146,7 @@ Names(seq) == { seq[i].n : i \in 1..Len(seq) }
 RECURSIVE Eval(_, _)
 RECURSIVE Eval0(_, _)
 RECURSIVE ArgVals(_, _, _)
+RECURSIVE LEVal(_, _)
 RECURSIVE EvalList(_, _, _)
 
 \* the location an array-valued expression denotes (for slices and stores), or <<>>
@@ -194,6 +195,25 @@ BinOp(op, n, a, b) ==
 BinOps == {"+", "-", "*", "/", "%", "<<", ">>", "&", "|", "^", "~mod+", "~mod-", "~mod*", "~mod<<", "~sat+", "~sat-",
            "==", "<>", "<", "<=", ">", ">=", "and", "or"}
 
+\* Built-in I/O methods at statement level.  Returns the action.
+ReadN(meth) == CASE meth \in {"read_u8", "read_u8_as_u16", "read_u8_as_u32", "read_u8_as_u64"} -> 1
+                 [] meth \in {"read_u16le", "read_u16be", "read_u16le_as_u32", "read_u16be_as_u32", "read_u16le_as_u64", "read_u16be_as_u64"} -> 2
+                 [] meth \in {"read_u24le", "read_u24be", "read_u24le_as_u32", "read_u24be_as_u32", "read_u24le_as_u64", "read_u24be_as_u64"} -> 3
+                 [] meth \in {"read_u32le", "read_u32be", "read_u32le_as_u64", "read_u32be_as_u64"} -> 4
+                 [] OTHER -> 0
+IsBE(meth) == meth \in {"read_u16be", "read_u16be_as_u32", "read_u16be_as_u64", "read_u24be", "read_u24be_as_u32", "read_u24be_as_u64", "read_u32be", "read_u32be_as_u64"}
+
+\* value of k bytes (sequence) little- or big-endian
+LEVal(bs, i) == IF i > Len(bs) THEN 0 ELSE bs[i] + 256 * LEVal(bs, i + 1)
+BEVal(bs) == LEVal([i \in 1..Len(bs) |-> bs[Len(bs) + 1 - i]], 1)
+
+PeekN(meth) == CASE meth \in {"peek_u8", "peek_u8_as_u16", "peek_u8_as_u32", "peek_u8_as_u64"} -> 1
+                 [] meth \in {"peek_u16le", "peek_u16be", "peek_u16le_as_u32", "peek_u16be_as_u32", "peek_u16le_as_u64", "peek_u16be_as_u64"} -> 2
+                 [] meth \in {"peek_u24le_as_u32", "peek_u24be_as_u32", "peek_u24le_as_u64", "peek_u24be_as_u64"} -> 3
+                 [] meth \in {"peek_u32le", "peek_u32be", "peek_u32le_as_u64", "peek_u32be_as_u64"} -> 4
+                 [] OTHER -> 0
+PeekBE(meth) == meth \in {"peek_u16be", "peek_u16be_as_u32", "peek_u16be_as_u64", "peek_u24be_as_u32", "peek_u24be_as_u64", "peek_u32be", "peek_u32be_as_u64"}
+
 \* argument record of a user call: list0 of the call node holds Arg nodes
 ArgVals(xs, i, C) == IF i > Len(xs) THEN [v |-> <<>>, f |-> {}]
                      ELSE LET a == Nd(xs[i])
@@ -213,6 +233,12 @@ Method(C, n, recvE, meth, argsE) ==
         rv == Eval(recvE, C)
     IN IF meth = "length" /\ (IsArrayTy(rt) \/ IsSliceTy(rt))
        THEN IF rv.f # {} THEN rv ELSE IF IsSliceTy(rt) THEN Un(rv, rv.v.hi - rv.v.lo) ELSE Un(rv, Len(rv.v))
+       ELSE IF IsReaderTy(rt) /\ PeekN(meth) > 0
+       THEN \* unchecked built-in: its pre-condition (enough bytes) must have been proven by the checker
+            IF src.wi - src.ri < PeekN(meth) THEN F(V("precondition " \o meth))
+            ELSE LET bs == SubSeq(src.data, src.ri + 1, src.ri + PeekN(meth))
+                     v == IF PeekBE(meth) THEN BEVal(bs) ELSE LEVal(bs, 1)
+                 IN IF OOM(v) THEN F(OOMF) ELSE R(v)
        ELSE IF meth = "length" /\ IsReaderTy(rt) THEN R(src.wi - src.ri)
        ELSE IF meth = "length" /\ IsWriterTy(rt) THEN R(dst.cap - Len(dst.data))
        ELSE IF meth = "is_closed" /\ IsReaderTy(rt) THEN R(IF src.closed THEN 1 ELSE 0)
@@ -318,13 +344,15 @@ EvalTop(e, C) == Eval(e, C)
 
 FuncRec(name) == P.fmap[name]          \* (the exporter also writes the function table keyed by name)
 
-ZeroOf(l) == IF l.arr > 0 THEN [i \in 1..l.arr |-> 0] ELSE IF l.kind = "status" THEN "ok" ELSE 0
+EmptySlice == [sl |-> TRUE, base |-> <<"none", "">>, lo |-> 0, hi |-> 0]
+ZeroOf(l) == IF l.arr > 0 THEN [i \in 1..l.arr |-> 0] ELSE IF l.kind = "status" THEN "ok" ELSE IF l.kind = "slice" THEN EmptySlice ELSE 0
 
 NewFrame(f, args) ==
     [fn |-> f.name, args |-> args,
      loc |-> [x \in Names(f.locals) |-> ZeroOf(CHOOSE l \in { f.locals[i] : i \in 1..Len(f.locals) } : l.n = x)],
      ctl |-> << [o |-> f.id, w |-> "z", pc |-> 1] >>,
-     pz |-> {}, loops |-> {}, io |-> [k |-> "none"]]
+     pz |-> {}, loops |-> {}, io |-> [k |-> "none"],
+     re |-> FALSE]      \* re: the current statement is being re-entered after a suspension inside it
 
 Top == stack[Len(stack)]
 Ctx(fr) == [loc |-> fr.loc, args |-> fr.args, pz |-> fr.pz, rc |-> TRUE]
@@ -335,7 +363,7 @@ CurStmt(fr) == ListOf(CtlTop(fr))[CtlTop(fr).pc]
 AtEnd(fr) == CtlTop(fr).pc > Len(ListOf(CtlTop(fr)))
 
 SetTop(fr) == [stack EXCEPT ![Len(stack)] = fr]
-Advance(fr) == [fr EXCEPT !.ctl[Len(fr.ctl)].pc = @ + 1]
+Advance(fr) == [fr EXCEPT !.ctl[Len(fr.ctl)].pc = @ + 1, !.re = FALSE]
 PopCtl(fr) == [fr EXCEPT !.ctl = SubSeq(@, 1, Len(@) - 1)]
 PushCtl(fr, o, w) == [fr EXCEPT !.ctl = Append(@, [o |-> o, w |-> w, pc |-> 1])]
 
@@ -371,7 +399,16 @@ Store(e, v, fr) ==
                 et == Nd(e).ty
             IN IF i.f # {} THEN [fr |-> fr, th |-> th, f |-> i.f]
                ELSE IF loc = <<>> \/ loc[1] = "arg" THEN [fr |-> fr, th |-> th, f |-> {U("store target")}]
-               ELSE IF ~IsArrayTy(Nd(n.l).ty) THEN [fr |-> fr, th |-> th, f |-> {U("store through slice variable")}]
+               ELSE IF IsSliceTy(Nd(n.l).ty)
+               THEN \* store through a slice: the element lives in the array the slice points into (aliasing is real)
+                    LET sv == Eval(n.l, C) IN
+                    IF sv.f # {} THEN [fr |-> fr, th |-> th, f |-> sv.f]
+                    ELSE IF i.v < 0 \/ i.v >= sv.v.hi - sv.v.lo THEN [fr |-> fr, th |-> th, f |-> {V("index")}]
+                    ELSE IF IsNumTy(et) /\ ~InRange(v, TyRange(et)) THEN [fr |-> fr, th |-> th, f |-> {V("store")}]
+                    ELSE IF sv.v.base[1] = "loc" THEN [fr |-> [fr EXCEPT !.loc[sv.v.base[2]][sv.v.lo + i.v + 1] = v], th |-> th, f |-> {}]
+                    ELSE IF sv.v.base[1] = "th" THEN [fr |-> fr, th |-> [th EXCEPT ![sv.v.base[2]][sv.v.lo + i.v + 1] = v], f |-> {}]
+                    ELSE [fr |-> fr, th |-> th, f |-> {U("store through slice of an argument")}]
+               ELSE IF ~IsArrayTy(Nd(n.l).ty) THEN [fr |-> fr, th |-> th, f |-> {U("store target type")}]
                ELSE LET arr == Deref(C, loc) IN
                     IF i.v < 0 \/ i.v >= Len(arr) THEN [fr |-> fr, th |-> th, f |-> {V("index")}]
                     ELSE IF IsNumTy(et) /\ ~InRange(v, TyRange(et)) THEN [fr |-> fr, th |-> th, f |-> {V("store")}]
@@ -464,18 +501,6 @@ Enter(g, argf, fr) ==
             /\ saved' = [saved EXCEPT ![g.name] = NoSaved]
             /\ UNCHANGED <<pi, th, src, dst, mode, status, retv, disabled, active, fault, ncalls, hist, fuel, pend>>
 
-\* Built-in I/O methods at statement level.  Returns the action.
-ReadN(meth) == CASE meth \in {"read_u8", "read_u8_as_u16", "read_u8_as_u32", "read_u8_as_u64"} -> 1
-                 [] meth \in {"read_u16le", "read_u16be", "read_u16le_as_u32", "read_u16be_as_u32", "read_u16le_as_u64", "read_u16be_as_u64"} -> 2
-                 [] meth \in {"read_u24le", "read_u24be", "read_u24le_as_u32", "read_u24be_as_u32", "read_u24le_as_u64", "read_u24be_as_u64"} -> 3
-                 [] OTHER -> 0
-IsBE(meth) == meth \in {"read_u16be", "read_u16be_as_u32", "read_u16be_as_u64", "read_u24be", "read_u24be_as_u32", "read_u24be_as_u64"}
-
-\* value of k bytes (sequence) little- or big-endian
-RECURSIVE LEVal(_, _)
-LEVal(bs, i) == IF i > Len(bs) THEN 0 ELSE bs[i] + 256 * LEVal(bs, i + 1)
-BEVal(bs) == LEVal([i \in 1..Len(bs) |-> bs[Len(bs) + 1 - i]], 1)
-
 Suspend(fr, st) == Deliver(fr, "susp", st, 0)
 
 \* Complete an assignment statement `s` (an Assign node) with RHS value v.
@@ -525,7 +550,7 @@ DoCall(s, fr) ==
                        /\ UNCHANGED <<pi, saved, dst, mode, status, retv, disabled, active, fault, ncalls, hist, fuel, pend>>
                ELSE \* take what is there, remember it, suspend with "$short read"
                     LET bs == have \o SubSeq(src.data, src.ri + 1, src.wi)
-                        fr2 == [fr EXCEPT !.io = [k |-> "read", got |-> bs]]
+                        fr2 == [fr EXCEPT !.io = [k |-> "read", got |-> bs], !.re = TRUE]
                     IN /\ src' = [src EXCEPT !.ri = src.wi]
                        /\ LET sv == [saved EXCEPT ![fr.fn] = fr2] IN
                           IF Len(stack) = 1
@@ -544,7 +569,7 @@ DoCall(s, fr) ==
             THEN /\ dst' = [dst EXCEPT !.data = Append(@, a.v)]
                  /\ stack' = SetTop(Advance([fr EXCEPT !.io = [k |-> "none"]]))
                  /\ UNCHANGED <<pi, th, saved, src, mode, status, retv, disabled, active, fault, ncalls, hist, fuel, pend>>
-            ELSE LET fr2 == [fr EXCEPT !.io = [k |-> "write", val |-> a.v]]
+            ELSE LET fr2 == [fr EXCEPT !.io = [k |-> "write", val |-> a.v], !.re = TRUE]
                      sv == [saved EXCEPT ![fr.fn] = fr2]
                  IN IF Len(stack) = 1
                     THEN /\ mode' = "idle" /\ status' = ShortWrite /\ retv' = 0 /\ stack' = <<>> /\ saved' = sv
@@ -555,6 +580,37 @@ DoCall(s, fr) ==
                     ELSE /\ stack' = SubSeq(stack, 1, Len(stack) - 1) /\ saved' = sv /\ mode' = "unwind"
                          /\ status' = ShortWrite /\ retv' = 0
                          /\ UNCHANGED <<pi, th, src, dst, disabled, active, fault, ncalls, hist, fuel, pend>>
+       ELSE IF IsReaderTy(rt) /\ meth = "skip_u32_fast"
+       THEN \* unchecked: pre-condition actual <= worst_case <= length()
+            LET a == EvalTop(Nd(call.x[1]).r, C)  w == EvalTop(Nd(call.x[2]).r, C) IN
+            IF a.f # {} THEN Fault(FirstOf(a.f)) ELSE IF w.f # {} THEN Fault(FirstOf(w.f))
+            ELSE IF a.v > w.v \/ w.v > src.wi - src.ri THEN Fault(V("precondition skip_u32_fast"))
+            ELSE /\ src' = [src EXCEPT !.ri = @ + a.v] /\ stack' = SetTop(Advance(fr))
+                 /\ UNCHANGED <<pi, th, saved, dst, mode, status, retv, disabled, active, fault, ncalls, hist, fuel, pend>>
+       ELSE IF IsWriterTy(rt) /\ meth = "write_u8_fast"
+       THEN LET a == EvalTop(Nd(call.x[1]).r, C) IN
+            IF a.f # {} THEN Fault(FirstOf(a.f))
+            ELSE IF Len(dst.data) >= dst.cap THEN Fault(V("precondition write_u8_fast"))
+            ELSE /\ dst' = [dst EXCEPT !.data = Append(@, a.v)] /\ stack' = SetTop(Advance(fr))
+                 /\ UNCHANGED <<pi, th, saved, src, mode, status, retv, disabled, active, fault, ncalls, hist, fuel, pend>>
+       ELSE IF IsReaderTy(rt) /\ meth \in {"skip_u32", "skip"}
+       THEN \* suspending skip: the amount is evaluated once and the remainder is kept across suspensions
+            LET a == IF fr.io.k = "skip" THEN R(fr.io.left) ELSE EvalTop(Nd(call.x[1]).r, C)
+                avail == src.wi - src.ri
+            IN IF a.f # {} THEN Fault(FirstOf(a.f))
+               ELSE IF avail >= a.v
+               THEN /\ src' = [src EXCEPT !.ri = @ + a.v] /\ stack' = SetTop(Advance([fr EXCEPT !.io = [k |-> "none"]]))
+                    /\ UNCHANGED <<pi, th, saved, dst, mode, status, retv, disabled, active, fault, ncalls, hist, fuel, pend>>
+               ELSE LET fr2 == [fr EXCEPT !.io = [k |-> "skip", left |-> a.v - avail], !.re = TRUE]
+                        sv == [saved EXCEPT ![fr.fn] = fr2]
+                    IN /\ src' = [src EXCEPT !.ri = src.wi]
+                       /\ IF Len(stack) = 1
+                          THEN /\ mode' = "idle" /\ status' = ShortRead /\ retv' = 0 /\ stack' = <<>> /\ saved' = sv /\ active' = pend.fn
+                               /\ hist' = Append(hist, [fn |-> pend.fn, args |-> pend.args, wi0 |-> pend.wi, closed0 |-> pend.closed, cap0 |-> pend.cap,
+                                                        resumed |-> pend.resumed, st |-> ShortRead, rv |-> 0, ri |-> src.wi, out |-> dst.data, disabled |-> disabled])
+                               /\ UNCHANGED <<pi, th, dst, disabled, fault, ncalls, fuel, pend>>
+                          ELSE /\ stack' = SubSeq(stack, 1, Len(stack) - 1) /\ saved' = sv /\ mode' = "unwind" /\ status' = ShortRead /\ retv' = 0
+                               /\ UNCHANGED <<pi, th, dst, disabled, active, fault, ncalls, hist, fuel, pend>>
        ELSE IF Nd(recvE).a = "" /\ Nd(recvE).c = "this" /\ (meth \in DOMAIN P.fmap)
        THEN LET g == FuncRec(meth)
                 av == ArgVals(call.x, 1, C)
@@ -567,7 +623,8 @@ IsUserOrIOCall(e) ==
     /\ Nd(e).a = "(" /\ Nd(Nd(e).l).a = "."
     /\ LET sel == Nd(Nd(e).l) rt == Nd(sel.l).ty IN
        \/ (IsReaderTy(rt) /\ ReadN(sel.c) > 0)
-       \/ (IsWriterTy(rt) /\ sel.c = "write_u8")
+       \/ (IsWriterTy(rt) /\ sel.c \in {"write_u8", "write_u8_fast"})
+       \/ (IsReaderTy(rt) /\ sel.c \in {"skip_u32_fast", "skip_u32", "skip"})
        \/ (Nd(sel.l).a = "" /\ Nd(sel.l).c = "this" /\ sel.c \in DOMAIN P.fmap)
 
 \* which block of an if / else-if chain is entered: <<node, "z"|"y">> or <<>>; faults in conditions surface as <<"fault", s>>
@@ -600,7 +657,9 @@ Step ==
           ELSE LET s == CurStmt(fr)
                    n == Nd(s)
                    \* the facts recorded before a `while` statement are those at its first entry
-                   ff == IF n.hf = 1 /\ ~(n.k = "While" /\ s \in fr.loops) THEN FalseFacts(s, C) ELSE {}
+                   \* ... and the facts before a statement are not re-examined when the statement is re-entered
+                   \* after a suspension inside it (they held when it was first reached)
+                   ff == IF n.hf = 1 /\ ~fr.re /\ ~(n.k = "While" /\ s \in fr.loops) THEN FalseFacts(s, C) ELSE {}
                IN IF ff # {} THEN Fault([k |-> "fact", d |-> ToString(s) \o ":" \o ToString(FirstOf(ff))])
                   ELSE CASE n.k = "Var" -> stack' = SetTop(Advance(fr)) /\ UNCHANGED <<pi, th, saved, src, dst, mode, status, retv, disabled, active, fault, ncalls, hist, pend>> /\ fuel' = fuel - 1
                          [] n.k = "Assert" ->
@@ -660,7 +719,7 @@ Unwind ==
                     /\ UNCHANGED <<pi, saved, src, dst, status, retv, disabled, active, fault, ncalls, hist, fuel, pend>>
           ELSE IF IsSusp(status)
           THEN \* this frame is suspended at the call statement (it will re-execute the call on resumption)
-               LET sv == [saved EXCEPT ![fr.fn] = fr] IN
+               LET sv == [saved EXCEPT ![fr.fn] = [fr EXCEPT !.re = TRUE]] IN
                IF Len(stack) = 1
                THEN /\ mode' = "idle" /\ stack' = <<>> /\ saved' = sv /\ active' = pend.fn
                     /\ hist' = Append(hist, [fn |-> pend.fn, args |-> pend.args, wi0 |-> pend.wi, closed0 |-> pend.closed, cap0 |-> pend.cap,
